@@ -252,7 +252,15 @@ def _p4(run, M, proxes):
 
 
 def _cmp(run, M, f, ref_src, label):
-    _, code = vn_paths(M, f, real=REAL)
+    try:
+        _, code = vn_paths(M, f, real=REAL)
+    except Unrecognised as e:
+        # the rule is "equals the documented closed form": a body that cannot be read as a formula at all (a loop filling a buffer, ...)
+        # has not been shown to equal it
+        ln = getattr(getattr(e, "node", None), "lineno", None)
+        run.bad("P4", label, f.loc(), "%s cannot be read as its documented closed form (%s%s): `%s`" % (
+            f.qual, e, " at line %s" % ln if ln else "", " ".join(ref_src.split())[:200]), stmt="P4:%s:form" % label)
+        return 1
     _, ref = vn_ref(ref_src.strip(), model=M, func=f, real=REAL)
     code = [o for o in code if o.status == "return"]
     ref = [o for o in ref if o.status == "return"]
